@@ -46,11 +46,12 @@ example : largePow5.getD 5 0 = 5 ^ 32 := by decide +kernel
     (significand and exponent, or the scratch buffer split at `integer_end` and the exponent, or the
     exponent-overflow flags, or the integer classification) denote exactly the literal's digits `litN p` and
     decimal exponent `litE p` (`|literal| = litN p · 10^(litE p)`, the quantities `Model.Num.exact` is made of). -/
-theorem c07_split (p : Parts) (wf : WF p) : Presents p (deCall p) := deCall_presents p wf
+theorem c07_split (single : Bool) (p : Parts) (wf : WF p) : Presents single p (deCall single p) :=
+  deCall_presents single p wf
 
 /-- non-vacuity: `12345678901234567890.5e-3` goes through `parse_long_integer`/`parse_long_decimal`/`parse_long_exponent`:
     integer part `1844674407370955161` re-printed plus the overflowing digit, fraction `5`, exponent `-3` -/
-example : deCall (Parts.mk false [0x31,0x32,0x33,0x34,0x35,0x36,0x37,0x38,0x39,0x30,0x31,0x32,0x33,0x34,0x35,0x36,0x37,0x38,0x39,0x30]
+example : deCall false (Parts.mk false [0x31,0x32,0x33,0x34,0x35,0x36,0x37,0x38,0x39,0x30,0x31,0x32,0x33,0x34,0x35,0x36,0x37,0x38,0x39,0x30]
       (some [0x35]) (some (true, [0x33])) []) =
     .truncated [0x31,0x32,0x33,0x34,0x35,0x36,0x37,0x38,0x39,0x30,0x31,0x32,0x33,0x34,0x35,0x36,0x37,0x38,0x39,0x30] [0x35] (-3) := by
   decide +kernel
